@@ -27,7 +27,11 @@ func dispatchRun(e *Env) {
 	case "C04":
 		handlerHistory(e)
 	case "C16":
-		misbehave(e)
+		if (G{e.S}).Pct(15) {
+			stuckSender(e)
+		} else {
+			misbehave(e)
+		}
 	default:
 		orderAndCopies(e)
 	}
@@ -1145,6 +1149,95 @@ func misbehave(e *Env) {
 	s.c.Close()
 }
 
+// stuckSender: the background handler that never returns is one that is stuck
+// in a send.  It is still reporting when the link goes down; what it sends then
+// goes into the queue of the connection that has ended, which nobody drains, so
+// it blocks for good.  The client reconnects; on the new connection every event
+// must reach its foreground handlers - also events whose handlers (the built-in
+// CTCP replies, the application's acknowledgements) send something themselves.
+func stuckSender(e *Env) {
+	g := G{e.S}
+	s := startSession(e, g.Knobs(ClientOpts{Nick: "me", Flood: true, Track: g.Pct(40)}), func(l *simnet.Link) { l.ChunkMode = g.Intn(4) })
+	down := false
+	s.c.HandleFunc(client.DISCONNECTED, func(*client.Conn, *client.Line) { down = true })
+	nReport := g.Range(33, 70)
+	long := g.Pct(30)
+	handed := 0
+	s.c.HandleBG("REPORT", client.HandlerFunc(func(c *client.Conn, l *client.Line) {
+		e.S.Count("fault.bg-handler-stuck-sending-to-a-connection-that-has-ended")
+		simrt.Block("stuck-sender", "the link to go down", func() bool { return down })
+		for i := 0; i < nReport; i++ {
+			switch {
+			case long:
+				c.Privmsg("#log", strings.Repeat(fmt.Sprintf("report %d ", i), 80))
+			case i%3 == 0:
+				c.Notice("#log", fmt.Sprintf("report %d", i))
+			case i%3 == 1:
+				c.Action("#log", fmt.Sprintf("reports %d", i))
+			default:
+				c.Privmsg("#log", fmt.Sprintf("report %d", i))
+			}
+			handed++
+		}
+	}))
+	var hellos []int
+	acks := g.Bool()
+	s.c.HandleFunc("HELLO", func(c *client.Conn, l *client.Line) {
+		hellos = append(hellos, seqOf(l))
+		if acks {
+			c.Notice("u", "hello yourself")
+		}
+	})
+	if !s.connect() {
+		return
+	}
+	s.l.SendLine(":u!i@h.sim REPORT #c -1 :go")
+	simrt.Settle(time.Duration(g.Intn(3)) * time.Second)
+	if g.Bool() {
+		s.l.CloseByServer()
+	} else {
+		e.S.Spawn("closer", func() { s.c.Close() })
+	}
+	if !simrt.BlockFor("stuck-sender", "DISCONNECTED", 10*time.Minute, func() bool { return down }) {
+		e.Violation("delivery-stopped", "the connection ended and DISCONNECTED was not delivered\n%s", e.S.TaskDump())
+		return
+	}
+	simrt.Settle(time.Duration(1+g.Intn(20)) * time.Second)
+	s.ready = false
+	if !s.connect() {
+		return
+	}
+	n := g.Range(2, 6)
+	for i := 0; i < n; i++ {
+		s.l.SendLine(fmt.Sprintf(":u!i@h.sim HELLO #c %d :x", i))
+		switch g.S.Choose(4) {
+		case 0:
+			s.l.SendLine(":u!i@h.sim PRIVMSG me :\x01VERSION\x01")
+		case 1:
+			s.l.SendLine(":u!i@h.sim PRIVMSG me :\x01PING 12345\x01")
+		}
+	}
+	s.l.SendLine("PING :fin")
+	fin := false
+	s.onLine = func(ln string) {
+		if ln == "PONG :fin" {
+			fin = true
+		}
+	}
+	e.Notef("a background handler stuck after handing over %d of %d lines to the ended connection; %d events on the next connection", handed, nReport, n)
+	if !simrt.BlockFor("stuck-sender", "final PONG", time.Hour, func() bool { return fin }) {
+		e.Violation("delivery-stopped", "a background handler is stuck sending to the connection that ended (%d of %d lines handed over); after the reconnect %d of %d later events reached the foreground handler and the final PING was not answered within an hour\n%s", handed, nReport, len(hellos), n, e.S.TaskDump())
+		return
+	}
+	simrt.Settle(time.Second)
+	e.Check()
+	if len(hellos) != n {
+		e.Violation("sibling-or-later-not-run", "%d of %d events of the second connection reached the foreground handler", len(hellos), n)
+		return
+	}
+	s.c.Close()
+}
+
 // ---------------------------------------------------------------------------
 // C04: handler-set histories against a multiset model with interval semantics
 
@@ -1316,6 +1409,20 @@ func handlerHistory(e *Env) {
 			register(nm, g.Bool(), false, "main")
 		}
 	}
+	// several one-shot handlers of one name that all remove themselves during the
+	// same event: they run side by side, so their removals meet in the handler
+	// set; each Remove has returned before the next event is dispatched
+	crowdAt, crowdName := map[int]bool{}, names[0]
+	if g.Pct(40) && nEvents >= 2 {
+		e.S.Count("probe.one-shot-handlers-removing-themselves-side-by-side")
+		for j := g.Intn(3); j < nEvents-1 && len(crowdAt) < 4; j += 2 + g.Intn(4) {
+			crowdAt[j] = true
+			for k := g.Range(3, 8); k > 0; k-- {
+				h := register(crowdName, false, false, "main")
+				h.selfRemoveAt, h.addAt, h.removeOtherAt = j, -1, -1
+			}
+		}
+	}
 	// names without sentinels: their handler lists start empty and may become
 	// empty again, so first registrations and last removals race for real
 	free := []string{"qux", "zap"}[:g.Range(0, 2)]
@@ -1375,6 +1482,9 @@ func handlerHistory(e *Env) {
 	}
 	for i := 0; i < nEvents; i++ {
 		nm := names[g.S.Choose(len(names))]
+		if crowdAt[i] || (i > 0 && crowdAt[i-1]) {
+			nm = crowdName
+		}
 		wireName := nm
 		switch g.S.Choose(3) {
 		case 1:
@@ -1389,6 +1499,9 @@ func handlerHistory(e *Env) {
 			s.l.SendLine(fmt.Sprintf("@seq=%d;hist=1 %s", i, wireName))
 		} else {
 			s.l.SendLine(fmt.Sprintf(":u!i@h.sim %s #c %d :x", wireName, i))
+		}
+		if crowdAt[i] {
+			continue // the next event follows at once: it is waiting when the one-shot handlers return
 		}
 		switch g.S.Choose(3) {
 		case 0:
